@@ -97,6 +97,26 @@ class SymBool:
     def __hash__(self):
         raise SymxUnsupported("hash of SymBool")
 
+    # bool is an int in Python: sum(x == k for ...) must work
+    def as_int(self):
+        return SymInt(z3.If(self.term(), z3.IntVal(1), z3.IntVal(0)), "N")
+
+    def __add__(self, o):
+        return self.as_int() + (o.as_int() if isinstance(o, SymBool) else o)
+
+    __radd__ = __add__
+
+    def __sub__(self, o):
+        return self.as_int() - (o.as_int() if isinstance(o, SymBool) else o)
+
+    def __rsub__(self, o):
+        return o - self.as_int()
+
+    def __mul__(self, o):
+        return self.as_int() * (o.as_int() if isinstance(o, SymBool) else o)
+
+    __rmul__ = __mul__
+
     def __repr__(self):
         return f"SymBool({self.term()})"
 
